@@ -69,6 +69,22 @@ pub fn check_ponly(c: &Pair) -> CheckResult {
     ensure!(eph[0] != eph[1] && eph[0] != eph[2] && eph[1] != eph[2], "with the payload key supplied and the ephemeral key left to the implementation, two files of the same sender carry the same ephemeral public key");
     ok(true, "ponly/fresh-ephemeral")
 }
+/// Only one half of the ephemeral pair supplied (the API then uses a pair of its own): the header field is still an
+/// ephemeral key - not a party's key - and no identity shows anywhere in the file.
+pub fn check_ehalf(c: &Pair) -> CheckResult {
+    let p = c.plain.bytes(); let eb = gen::key32(c.e, "E"); let epub = kspec::x25519_base(&eb); let mut fields = Vec::new();
+    for (k, (s, r)) in [(c.s1, c.r1), (c.s2, c.r2)].into_iter().enumerate() { for private_half in [true, false] {
+        let (s, r) = (kx::ident(s, "S"), kx::ident(r, "R"));
+        let (res, sh) = kx::key_encrypt_halves(&p, &c.prs, &WSched::all(), &s.sk, &s.pk, &r.pk, if private_half { Some(&eb) } else { None }, if private_half { None } else { Some(&epub) }, None);
+        ensure!(res.is_ok(), "key_encrypt failed: {:?}", res);
+        let reads = read_sizes(&sh); let f = sh.sink.take(); layout(&f, 132, &reads, p.len())?;
+        for id in [&s, &r] { for (n, what) in needles(&id.pk) { ensure!(!find(&f, &n), "with only the {} half of an ephemeral pair supplied, the {} of the {} occurs in the encrypted file", if private_half { "private" } else { "public" }, what, if std::ptr::eq(id, &s) { "sender" } else { "recipient" }); } }
+        fields.push((k, f[4..36].to_vec()));
+    } }
+    // an ephemeral field that follows the identities (same for one pair, different across pairs) would link files to parties
+    if (c.s1, c.r1) != (c.s2, c.r2) { ensure!(!(fields[0].1 == fields[1].1 && fields[2].1 == fields[3].1 && fields[0].1 != fields[2].1), "the ephemeral field is a function of the identities when half a pair is supplied"); }
+    ok(true, "ephemeral-half/no-identity")
+}
 pub fn check_pass_pair(c: &PassPair) -> CheckResult {
     let p = c.plain.bytes(); let salt = gen::key32(c.salt, "salt"); let mut files = Vec::new();
     for w in [&c.w1, &c.w2] {
@@ -110,6 +126,7 @@ pub fn run(ctx: &Ctx) {
     let max = if ctx.quick() { 300_000 } else { 2 << 20 };
     ctx.pbt("identity_swap_pairs", ctx.n(25_000, 300_000), || (gen::plain_strategy(max), any::<[u64; 6]>()).prop_flat_map(|(plain, k)| { let l = plain.len; (Just(plain), gen::rsched_for(l), Just(k)) }).prop_map(|(plain, prs, k)| Pair { plain, prs, s1: k[0], r1: k[1], s2: k[2], r2: k[3], e: k[4], p: k[5] }), check_pair);
     ctx.pbt("payload_given_ephemeral_fresh", ctx.n(4_000, 100_000), || (gen::small_plain(300), gen::rsched_strategy(), any::<[u64; 6]>()).prop_map(|(plain, prs, k)| Pair { plain, prs, s1: k[0], r1: k[1], s2: k[2], r2: k[3], e: k[4], p: k[5] }), check_ponly);
+    ctx.pbt("ephemeral_half_supplied", ctx.n(4_000, 100_000), || (gen::small_plain(300), gen::rsched_strategy(), any::<[u64; 6]>()).prop_map(|(plain, prs, k)| Pair { plain, prs, s1: k[0], r1: k[1], s2: k[2], r2: k[3], e: k[4], p: k[5] }), check_ehalf);
     ctx.pbt("password_swap_pairs", ctx.n(100, 2_000), || (gen::small_plain(400), gen::rsched_strategy(), gen::password_strategy(), gen::password_strategy(), any::<u64>()).prop_map(|(plain, prs, w1, w2, salt)| PassPair { plain, prs, w1, w2, salt }), check_pass_pair);
     ctx.shrink_iters.store(20, std::sync::atomic::Ordering::Relaxed);
     ctx.pbt("cli_files", ctx.n(40, 800), || (prop_oneof![3 => 0usize..3000, 1 => Just(CS), 1 => Just(CS + 1), 1 => CS..3 * CS], ("[a-zA-Z0-9]{12,24}", "[a-zA-Z0-9]{12,24}"), any::<u64>(), prop::bool::weighted(0.25), any::<bool>(), prop::bool::weighted(0.3)).prop_map(|(len, names, seed, pass_mode, to_stdout, fifo)| CliCase { len, names, seed, pass_mode, to_stdout, fifo }), check_cli);
